@@ -248,3 +248,59 @@ def noise_only(a, b, ulps: int = 8) -> bool:
         if not np.all(ok):
             return False
     return True
+
+
+POINTLIKE = {"Point", "PointCollection", "Line", "LineCollection", "Plane", "PlaneCollection"}
+
+
+def _nd_array(c):
+    if not (isinstance(c, tuple) and c and c[0] == "nd"):
+        return None
+    dt = np.dtype(c[1])
+    n = int(np.prod(c[2])) * dt.itemsize if c[2] else dt.itemsize
+    if dt.kind not in "fc" or not isinstance(c[3], (bytes, bytearray)) or len(c[3]) != n or not c[2]:
+        return None
+    return np.frombuffer(c[3], dtype=dt).reshape(c[2])
+
+
+def _rows_projectively_equal(x, y, tol: float = 1e-12) -> bool:
+    u, v = _nd_array(x), _nd_array(y)
+    if u is None or v is None or u.shape != v.shape:
+        return False
+    u = u.reshape(-1, u.shape[-1]).astype(complex)
+    v = v.reshape(-1, v.shape[-1]).astype(complex)
+    with np.errstate(all="ignore"):
+        if not (np.all(np.isfinite(u)) and np.all(np.isfinite(v))):
+            return False
+        su = np.max(np.abs(u), axis=1, keepdims=True)
+        sv = np.max(np.abs(v), axis=1, keepdims=True)
+        if np.any((su == 0) != (sv == 0)):
+            return False
+        u = u / np.where(su == 0, 1, su)
+        v = v / np.where(sv == 0, 1, sv)
+        nu = np.sum(np.abs(u) ** 2, axis=1)
+        nv = np.sum(np.abs(v) ** 2, axis=1)
+        ip = np.abs(np.sum(np.conj(u) * v, axis=1)) ** 2
+        return bool(np.all(ip >= (1 - tol) * nu * nv))
+
+
+def projective_noise(a, b) -> bool:
+    """True iff two canonical answers differ only in the REPRESENTATIVE of point-like results: the same points /
+    hyperplanes, each row up to a non-zero (complex) factor, everything else equal up to numeric noise.
+
+    A solver-based query (conic with conic, quadric with line) returns each complex point divided by one of its
+    coordinates; for points such as (1, i, 0) two coordinates tie in magnitude, and which one wins is decided by
+    rounding noise that depends on the memory alignment of numpy's temporaries -- two calls on identical state came
+    back as p and -i*p (thorough soak, PREEMPT, not reproducible in another process). The operands' own state is
+    guarded bit by bit by O1 regardless."""
+    if a == b:
+        return True
+    if not (isinstance(a, tuple) and isinstance(b, tuple) and a and b and a[0] == b[0]):
+        return False
+    if a[0] == "T" and a[1] == b[1] and a[1] in POINTLIKE and len(a) == len(b) == 4:
+        arr_ok = a[2] == b[2] or noise_only(a[2], b[2]) or _rows_projectively_equal(a[2], b[2])
+        return arr_ok and (a[3] == b[3] or noise_only(a[3], b[3]))
+    if a[0] == "seq" and a[1] == b[1] and len(a[2]) == len(b[2]):
+        return all(projective_noise(x, y) for x, y in zip(a[2], b[2]))
+    return noise_only(a, b)
+
